@@ -119,9 +119,10 @@ FunCalls ==
 (* (k markers, k arguments), or concatenates when there is no marker, showing    *)
 (* each argument's bound value                                                   *)
 (* an argument's own text may look like a marker: it is shown, never substituted into *)
-PrArgs   == {a, b, IntT(7), IntT(-1), X, Z, Atom("hello world"), Atom("%s"), Atom("100%")}
+PrArgs   == {a, b, IntT(7), IntT(-1), X, Z, Atom("hello world"), Atom("%s"), Atom("100%"),
+             Cx("f", <<a, IntT(7)>>), Cx("h", <<>>), Lst(<<a, Lst(<<b>>), EmptyList>>), EmptyList, Y}
 PrArgsQ  == {a, IntT(7), X, Z, Atom("%s")}
-PrPriors == {P(a, NoT, X), P(IntT(3), NoT, b)}
+PrPriors == {P(a, Lst(<<a, Cx("f", <<b>>)>>), X), P(IntT(3), Cx("g", <<Lst(<<a>>), IntT(1)>>), b)}
 Fm(s) == Atom(s)
 PrCalls ==
     LET A == IF Thorough THEN PrArgs ELSE PrArgsQ IN
@@ -132,7 +133,8 @@ PrCalls ==
   \cup {[f |-> "print", args |-> <<x, y>>, prior |-> p] : x \in PrArgs, y \in PrArgs, p \in PrPriors}
   \cup {[f |-> "print", args |-> <<x, y, z>>, prior |-> P(a, NoT, X)] : x \in A, y \in A, z \in A}
   \cup {[f |-> "print_list", args |-> <<l>>, prior |-> p] :
-           l \in {EmptyList, Lst(<<a>>), Lst(<<a, b, IntT(7)>>), Lst(<<X, b>>), Lst(<<Z, X, Z>>), LstT(<<a>>, Y), X, Lst(<<Atom("hello world"), IntT(-1)>>)},
+           l \in {EmptyList, Lst(<<a>>), Lst(<<a, b, IntT(7)>>), Lst(<<X, b>>), Lst(<<Z, X, Z>>), LstT(<<a>>, Y), X, Lst(<<Atom("hello world"), IntT(-1)>>),
+                  Lst(<<Cx("f", <<a>>), Lst(<<a, b>>), EmptyList>>), Y},
            p \in PrPriors \cup {P(Lst(<<a, b>>), Lst(<<b, Atom("c")>>), NoT), P(b, EmptyList, X)}}
   \cup {[f |-> "nl", args |-> <<>>, prior |-> NoPrior]}
 
